@@ -44,13 +44,25 @@ func (m MIn) Value() any {
 	case "nil":
 		return nil
 	case "typednil":
-		switch m.I % 4 {
+		switch m.I % 9 {
 		case 0:
 			return (*int)(nil)
 		case 1:
 			return (*stackage.Stack)(nil)
 		case 2:
 			return (*MyStack)(nil)
+		case 3:
+			return (**int)(nil)
+		case 4:
+			return (***string)(nil)
+		case 5:
+			return (**stackage.Stack)(nil)
+		case 6:
+			var p *int
+			return &p // a live pointer to a nil pointer
+		case 7:
+			var p **MyCond
+			return &p
 		}
 		return (*stackage.Condition)(nil)
 	case "op":
